@@ -190,7 +190,7 @@ m = {"version": 1, "setup_cmd": "./setup.sh",
      "hooks": {"guard": "cargo feature fjall_verif",
                "enable": "harness/Cargo.toml depends on fjall = { path = \"/repo\", features = [\"fjall_verif\"] }",
                "baseline_off_cmd": "cd /repo && cargo test --workspace --no-fail-fast --offline",
-               "source_commits": ["3625703", "f42994d", "23fbda1", "b3eb392", "25a6fa4"], "add_only": True},
+               "source_commits": ["3625703", "f42994d", "23fbda1", "b3eb392", "25a6fa4", "3bb90be"], "add_only": True},
      "engines": [{"name": "coq-model+correspondence", "path": "coq/ ocaml/ harness/ shim/ py/",
                   "serves_properties": sorted(CLAIMED),
                   "kind_free_text": "Coq 8.16 model + theorems; extracted model (fjm) vs implementation harness (fjv) on the same programs / bytes"}],
